@@ -234,26 +234,28 @@ func c23Pump(bound int, free bool) *explore.Scenario {
 			env := &envObj{}
 
 			var (
-				cev          []qEvent // every client event in order
-				sev          []sEvent
-				calls        []string // "Start:err" ...
-				startErr     error
-				startRet     bool
-				firstErr     error // first error returned by Start/HandleData
-				closed       bool
-				closedEarly  bool // Close by explorer choice before the pump ran dry
-				closeErr     error
-				closeRet     bool
-				presetErr    error
-				clientDone   bool
-				serverDone   bool
-				cliWrites    = map[tls.QUICEncryptionLevel][]byte{}
-				sdata        = map[stdtls.QUICEncryptionLevel][]byte{} // server → client, undelivered
-				cdata        = map[tls.QUICEncryptionLevel][]byte{}    // client → server, undelivered
-				srvErr       error
-				garbled      bool
-				q            *tls.UQUICConn
-				pumpFinished bool
+				cev                []qEvent // every client event in order
+				sev                []sEvent
+				calls              []string // "Start:err" ...
+				startErr           error
+				startRet           bool
+				firstErr           error // first error returned by Start/HandleData
+				closed             bool
+				closedEarly        bool // Close by explorer choice before the pump ran dry
+				misdelivered       bool // data was handed to a wrong encryption level once (by explorer choice)
+				wrongLevelAccepted bool
+				closeErr           error
+				closeRet           bool
+				presetErr          error
+				clientDone         bool
+				serverDone         bool
+				cliWrites          = map[tls.QUICEncryptionLevel][]byte{}
+				sdata              = map[stdtls.QUICEncryptionLevel][]byte{} // server → client, undelivered
+				cdata              = map[tls.QUICEncryptionLevel][]byte{}    // client → server, undelivered
+				srvErr             error
+				garbled            bool
+				q                  *tls.UQUICConn
+				pumpFinished       bool
 			)
 			note := func(name string, err error) {
 				calls = append(calls, fmt.Sprintf("%s:%v", name, err == nil))
@@ -385,6 +387,18 @@ func c23Pump(bound int, free bool) *explore.Scenario {
 						if inj == qiServerGarbage && !garbled {
 							garbled = true
 							d = append([]byte{0xff}, d[1:]...)
+						}
+						if !misdelivered && x.Choose("pump.wronglevel", 2) == 1 {
+							// a confused transport hands the first byte to the wrong encryption level first:
+							// HandleData must refuse it and return (the handshake is allowed to fail afterwards)
+							misdelivered = true
+							wrong := cLevels[(li+1)%len(cLevels)]
+							err := q.HandleData(wrong, d[:1])
+							note("HandleData(wrong level)", err)
+							if err == nil {
+								wrongLevelAccepted = true
+							}
+							drainClient()
 						}
 						var frags [][]byte
 						switch x.Choose("frag.deliver", 4) {
@@ -550,7 +564,10 @@ func c23Pump(bound int, free bool) *explore.Scenario {
 			// outcome per injection
 			// a cancelled context may or may not stop the handshake: select picks any ready alternative
 			failing := inj != qiNone && inj != qiCancelThread && inj != qiPreCancelled
-			earlyClose := closedEarly
+			earlyClose := closedEarly || misdelivered
+			if wrongLevelAccepted {
+				r.Violate("C23|wrong-level-data-accepted", "%s: HandleData accepted data for a level other than the current read level", what)
+			}
 			switch {
 			case inj == qiNone && !earlyClose:
 				if firstErr != nil || !clientDone || !serverDone {
@@ -639,7 +656,7 @@ func init() {
 	register(&Prop{ID: "C23", Level: "model_checking", Variant: "B", Scenarios: c23Scenarios, Sharded: true,
 		RaceScenarios: func(thorough bool) []*explore.Scenario { return []*explore.Scenario{c23Pump(0, true)} },
 		Run: func(c *explore.Check, thorough bool) {
-			c.Rule = "real UQUICConn (3 TLS 1.3-only custom specs with quic_transport_parameters) x standard-library QUIC server {default, HelloRetryRequest-forcing, requesting a client certificate} x injections {none, concurrent cancel thread, no ServerName, duplicate extension, MinVersion 1.2, pre-cancelled context, no common ALPN, untrusted certificate, corrupted server flight}, driven by a pump thread under the controlled scheduler (go/chan/select/mutex of package tls redirected): all schedules with <= 2 (4) preemptions/free switches/select alternatives x all fragmentations of server flights {whole, 1|rest, half|half, rest|1} with <= 2 (4) deviations x a reactive pump step (forward a CRYPTO chunk and feed the answer back before draining further events) at any WriteData event x an optional early Close in any round x an optional SetTransportParameters call after Start in any round. Oracle: every Start/HandleData/Close returns (scheduler deadlock detection), no panic; client CRYPTO data is handshake-framed, ClientHello only at Initial with empty legacy_session_id and quic_transport_parameters; per level write secret before read secret, each once; 1-RTT read secret after HandshakeDone; peer transport parameters exactly once and byte-equal; without injection both sides complete with equal state and pairwise equal secrets (HRR followed with exactly 2 hellos); with a failure injected an error is reported and Start fails on unbuildable hellos. distinct = outcome class"
+			c.Rule = "real UQUICConn (3 TLS 1.3-only custom specs with quic_transport_parameters) x standard-library QUIC server {default, HelloRetryRequest-forcing, requesting a client certificate} x injections {none, concurrent cancel thread, no ServerName, duplicate extension, MinVersion 1.2, pre-cancelled context, no common ALPN, untrusted certificate, corrupted server flight}, driven by a pump thread under the controlled scheduler (go/chan/select/mutex of package tls redirected): all schedules with <= 2 (4) preemptions/free switches/select alternatives x all fragmentations of server flights {whole, 1|rest, half|half, rest|1} with <= 2 (4) deviations x a reactive pump step (forward a CRYPTO chunk and feed the answer back before draining further events) at any WriteData event x one delivery to a wrong encryption level (must be refused and return) x an optional early Close in any round x an optional SetTransportParameters call after Start in any round. Oracle: every Start/HandleData/Close returns (scheduler deadlock detection), no panic; client CRYPTO data is handshake-framed, ClientHello only at Initial with empty legacy_session_id and quic_transport_parameters; per level write secret before read secret, each once; 1-RTT read secret after HandshakeDone; peer transport parameters exactly once and byte-equal; without injection both sides complete with equal state and pairwise equal secrets (HRR followed with exactly 2 hellos); with a failure injected an error is reported and Start fails on unbuildable hellos. distinct = outcome class"
 			c.Assumptions = []string{"the standard-library QUIC server is the environment and adds no scheduling points", "UQUICConn methods are called from one thread (documented as not concurrency-safe); only context cancellation is concurrent", "bounded: <= k deviations per class"}
 			runAll(c, c23Scenarios(thorough), 0)
 			attachRacePass(c)
